@@ -63,10 +63,10 @@ NSHARDS = 16
 
 def jobs(tier):
     if tier == 'quick':
-        en = [('ab', 5), ('abc', 3), ('é日', 4)]
+        en = [('ab', 5), ('abc', 3), ('é日', 4), ('K\u212a', 3)]
         samp = 60
     else:
-        en = [('ab', 7), ('abc', 5), ('é日', 6), ('aé😀', 4)]
+        en = [('ab', 7), ('abc', 5), ('é日', 6), ('aé😀', 4), ('K\u212a', 5), ('\u03a9\u2126a', 4)]
         samp = 1500
     js = []
     for alpha, ml in en:
@@ -87,7 +87,10 @@ def jobs(tier):
 
 @st.composite
 def sampled_pairs(draw):
-    alpha = draw(st.sampled_from(['ab', 'abc', 'abcd', 'aab', 'éè', 'αβγ', '日本語', 'a😀é', 'привет мир']))
+    alpha = draw(st.sampled_from(['ab', 'abc', 'abcd', 'aab', 'éè', 'αβγ', '日本語', 'a😀é', 'привет мир',
+                                  # different code points that Unicode normalisation maps to one character (KELVIN SIGN / K, OHM SIGN /
+                                  # GREEK OMEGA, ANGSTROM SIGN / A WITH RING, e + COMBINING ACUTE / é, fullwidth A): different characters
+                                  'K\u212a', '\u03a9\u2126a', '\u00c5\u212bA', 'e\u0301\u00e9', 'A\uff21a', '\u212aK 273']))
     t = st.text(alphabet=alpha, max_size=12)
     run = st.builds(lambda c, n: c * n, st.sampled_from(list(alpha)), st.integers(0, 6))
     piece = st.one_of(t, run)
